@@ -3,7 +3,7 @@
    (DefaultWorker._alloc/_dealloc/_request_cb/_result_cb, Master._result_cb/
    _request_cb/_submit_tasks, Worker._dispatch_func etc.), oracle: RP.Raptor.Oracle. *)
 From Coq Require Import ZArith List Bool Permutation.
-From RP Require Import Raptor.Model Raptor.Oracle Raptor.Proofs Raptor.Race Raptor.RaceOracle Raptor.RaceProofs Raptor.Lin Raptor.LinProofs.
+From RP Require Import Raptor.Model Raptor.Oracle Raptor.Proofs Raptor.Race Raptor.RaceOracle Raptor.RaceProofs Raptor.Lin Raptor.LinProofs Raptor.Endings Raptor.EndingsOracle Raptor.EndingsProofs.
 Import ListNotations.
 Open Scope Z_scope.
 
@@ -211,6 +211,44 @@ Theorem C20_sequential_outcome_satisfies_clauses :
 Proof. exact sequential_outcome_ok. Qed.
 Print Assumptions C20_sequential_outcome_satisfies_clauses.
 
+(* However a request ENDS.  `dispatch_x` (Raptor.Endings) is the table of
+   request kinds (function/method, eval, exec, proc, shell) x endings: normal
+   return / raise, empty or missing function / code, callable that cannot be
+   resolved or deserialized, PythonTask with extra args, communicator that
+   cannot be injected, environment entry the OS refuses, syntax error, failing
+   pre_exec, missing executable / command, bad arguments, payload that closes
+   the captured stdout, leaves the interpreter, or changes the directory.
+   One task on a persistent rank (MPIWorkerRank.run): whatever the kind and
+   the ending, os.environ, the process environment, the write-through binding,
+   the working directory, Worker._task_env and the stdio streams afterwards are
+   what they were before. *)
+Theorem C20_any_ending_restores_rank_state :
+  forall (r : xreq) (s : rstate),
+    sync (r_w s) -> r_cwd s = 0 ->
+    weq (r_w (snd (rank_request r s))) (r_w s) /\ sync (r_w (snd (rank_request r s))) /\
+    r_cwd (snd (rank_request r s)) = 0 /\ r_tenv (snd (rank_request r s)) = r_tenv s /\
+    r_stdio (snd (rank_request r s)) = r_stdio s.
+Proof. exact rank_request_restores. Qed.
+Print Assumptions C20_any_ending_restores_rank_state.
+
+(* ... hence, for every sequence of requests with arbitrary endings, each one
+   (in particular a probe that follows a refused request) is answered as on the
+   rank's original state, and that state is found again after each of them *)
+Theorem C20_any_ending_sequence_isolated :
+  forall (rs : list xreq) (s0 : rstate),
+    sync (r_w s0) -> r_cwd s0 = 0 ->
+    map fst (xrun true s0 rs) = map (expected_x (r_tenv s0) (r_w s0)) rs /\
+    Forall (fun x : dres * rstate => rs_eq (snd x) s0) (xrun true s0 rs).
+Proof. exact xrun_rank_isolated0. Qed.
+Print Assumptions C20_any_ending_sequence_isolated.
+
+(* exit code 0 exactly for the endings in which the call itself succeeded *)
+Theorem C20_any_ending_truthful :
+  forall (tenv : env) (w0 : world) (r : xreq),
+    (d_ret (expected_x tenv w0 r) =? 0) = succeeded_x r.
+Proof. exact expected_x_truthful. Qed.
+Print Assumptions C20_any_ending_truthful.
+
 (* The agent scheduler's raptor forwarding loses and duplicates nothing: for
    every history of incoming batches, queue registrations / unregistrations
    and cancel requests, the uids handed to the local scheduler, put on raptor
@@ -280,4 +318,16 @@ Example C20_protocol_nonvacuous :
     (PT, RoPut RReal0); (PT, RoSet); (PT, RoRelease); (PD, RoAcquire);
     (PD, RoIsSet true); (PD, RoRelease); (PT, RoExit)],
    [RReal0], true, [1; 2], true, [false; false]).
+Proof. vm_compute. reflexivity. Qed.
+
+(* non-vacuity of the ending theorems: on a rank, a function request with an
+   environment whose callable cannot be resolved is reported as failed, a probe
+   then finds the original environment (key 1 unset), directory and streams *)
+Example C20_endings_nonvacuous :
+  map (fun m : dres * rstate => (fst m, view (py_env (r_w (snd m))), r_cwd (snd m)))
+      (xrun true (mkR (mkWorld [(0, 1)] [(0, 1)] true) 0 [] true)
+            [((DFunc, Some [(1, 7)], mkPayload [] (FReturn 3)), EUnresolvable);
+             ((DEval, Some [], mkPayload [AEcho 0; AEcho 1] (FReturn 1)), ENormal)])
+  = [(reported None, [Some 1; None; None; None; None; None], 0);
+     (mkRes (Some [1; -1]) [] None 0 (Some 1) false, [Some 1; None; None; None; None; None], 0)].
 Proof. vm_compute. reflexivity. Qed.
